@@ -95,6 +95,7 @@ func (f *fakeSub) Subscribe() (header.Subscription[H], error) {
 func (f *fakeSub) SetVerifier(v func(context.Context, H) error) error { f.verifier = v; return nil }
 
 var errFetch = errors.New("c15: scripted getter failure")
+var errSoftHead = errors.New("c15: head not verifiable against the trusted head")
 
 // a failing getter answers with a plain error or, every other time, with ErrNotFound (a peer
 // that does not have the height): both must end the bifurcation
@@ -127,9 +128,29 @@ type getter struct {
 	calls  []call
 	syncer *hsync.Syncer[H]
 	reg    *vhdr.Registry
+	// head request script
+	armed     bool
+	candidate H
+	trusted   H
+	headReqs  int
 }
 
-func (g *getter) Head(context.Context, ...header.HeadOption[H]) (H, error) {
+// Head is the head request of networkHead. Once armed it answers (candidate, soft *VerifyError), as an
+// Exchange does whose trusted peers serve a head it could not verify against the given trusted head;
+// otherwise it fails (and the Syncer keeps its subjective head).
+func (g *getter) Head(_ context.Context, opts ...header.HeadOption[H]) (H, error) {
+	g.mu.Lock()
+	defer g.mu.Unlock()
+	g.headReqs++
+	if g.armed {
+		g.armed = false
+		var p header.HeadParams[H]
+		for _, o := range opts {
+			o(&p)
+		}
+		g.trusted = p.TrustedHead
+		return g.candidate, &header.VerifyError{Reason: errSoftHead, SoftFailure: true}
+	}
 	return nil, errors.New("c15: no network head")
 }
 func (g *getter) Get(context.Context, header.Hash) (H, error) { return nil, header.ErrNotFound }
@@ -204,6 +225,7 @@ type scen struct {
 	Budget int
 	Class  string
 	Kind   string
+	Head   bool // deliver the candidate as the soft-failing answer of the head request made by Syncer.Head()
 }
 
 func (sc *scen) subj() uint64 {
@@ -214,10 +236,13 @@ func (sc *scen) subj() uint64 {
 }
 
 type outcome struct {
-	verdict string
-	calls   []call
-	headID  uint64
-	now     time.Time
+	verdict     string
+	ret         uint64 // head path: id of the header Syncer.Head() answered with
+	calls       []call
+	headID      uint64
+	storeBefore H
+	storeAfter  uint64
+	now         time.Time
 }
 
 type world struct {
@@ -252,10 +277,16 @@ func (w *world) run(sc *scen) outcome {
 	}
 	g := &getter{chain: w.chain, lo: 1, hi: uint64(len(w.chain) - 1), over: sc.Over, budget: sc.Budget, reg: w.reg}
 	sub := &fakeSub{}
+	recency := 1000 * time.Hour
+	if sc.Head {
+		// the subjective head (and everything below) is not recent, every header above it is:
+		// Syncer.Head() then asks the getter for the network head, and only then
+		recency = time.Now().Sub(time.Unix(0, w.chain[sc.subj()].T)) - 500*time.Millisecond
+	}
 	sy, err := hsync.NewSyncer[H](g, st, sub,
 		hsync.WithBlockTime(time.Second),
 		hsync.WithTrustingPeriod(1000*time.Hour),
-		hsync.WithRecencyThreshold(1000*time.Hour),
+		hsync.WithRecencyThreshold(recency),
 		hsync.WithSyncFromHeight(1),
 	)
 	if err != nil {
@@ -283,21 +314,50 @@ func (w *world) run(sc *scen) outcome {
 	if len(g.calls) != 0 {
 		t.Fatalf("getter used before delivery: %v", g.calls)
 	}
-	out := outcome{now: time.Now()}
+	if err := st.Sync(ctx); err != nil {
+		t.Fatal(err)
+	}
+	sb, err := st.Head(ctx)
+	if err != nil {
+		t.Fatal(err)
+	}
+	out := outcome{now: time.Now(), storeBefore: sb}
 	func() {
 		defer func() {
 			if r := recover(); r != nil {
 				out.verdict = "VPanic"
-				t.Logf("verifier panicked on %s: %v", sc.Class, r)
+				t.Logf("delivery panicked on %s: %v", sc.Class, r)
 			}
 		}()
-		out.verdict = observe(sub.verifier(ctx, sc.New))
+		if sc.Head {
+			g.mu.Lock()
+			g.armed, g.candidate = true, sc.New
+			g.mu.Unlock()
+			out.verdict = "VOther" // not observable on this path
+			hd, err := sy.Head(ctx)
+			if err != nil || hd == nil {
+				t.Logf("Syncer.Head failed on %s: %v", sc.Class, err)
+				out.verdict = "VPanic"
+			} else {
+				out.ret = w.reg.ID(hd.Hash())
+			}
+			if g.armed || g.trusted != w.chain[sc.subj()] {
+				t.Fatalf("%s: head request not made with the subjective head as trusted head", sc.Class)
+			}
+		} else {
+			out.verdict = observe(sub.verifier(ctx, sc.New))
+		}
 	}()
 	g.mu.Lock()
 	out.calls = append([]call(nil), g.calls...)
 	g.mu.Unlock()
 	if hd, err := sy.Head(ctx); err == nil && hd != nil {
 		out.headID = w.reg.ID(hd.Hash())
+	}
+	if err := st.Sync(ctx); err == nil {
+		if sh, err := st.Head(ctx); err == nil && sh != nil {
+			out.storeAfter = w.reg.ID(sh.Hash())
+		}
 	}
 	_ = sy.Stop(ctx)
 	_ = st.Stop(ctx)
@@ -333,7 +393,7 @@ func TestC15(t *testing.T) {
 	} else {
 		wr.PerShard(150)
 	}
-	wr.Rule = "a real Syncer (real Store with heads 1..S, scripted Getter, captured subscriber verifier) receives a candidate at distance D under a " +
+	wr.Rule = "a real Syncer (real Store with heads 1..S, scripted Getter) receives a candidate at distance D -- through the captured subscriber verifier, or as the (candidate, soft VerifyError) answer of the head request made by Syncer.Head() -- under a " +
 		"type-level trust policy (adjacent: hash link; non-adjacent: gap <= trustRange or a modular predicate; forged ids never trusted non-adjacently); " +
 		"valid / forged / malformed candidates; getter failing from request k on; getter answers replaced by wrong-height, nil, wrong-chain, " +
 		"future, unordered or forked headers at a requested height; distinct by (D, trust policy, candidate kind, fault); non-trivial when bifurcation ran"
@@ -360,18 +420,31 @@ func TestC15(t *testing.T) {
 				}
 				cs[i] = new(big.Int).Add(new(big.Int).Mul(new(big.Int).SetUint64(c.h), big.NewInt(1000000)), new(big.Int).SetUint64(c.headID)).String()
 			}
-			term := fmt.Sprintf("Case15 %s %s %s %s %s %s %d %s %s %d",
-				emit.Z(o.now.UnixNano()), emit.Z(int64(w.drift)), sc.Pol.term(reg), reg.Term(chain[sc.subj()]), reg.Term(sc.New),
-				w.gspecTerm(sc), sc.Budget, o.verdict, emit.List(cs), o.headID)
+			term := fmt.Sprintf("Case15 %s %s %s %s %s %s %s %s %d %s %d %s %d %d",
+				emit.Z(o.now.UnixNano()), emit.Z(int64(w.drift)), sc.Pol.term(reg), emit.B(sc.Head), reg.Term(o.storeBefore),
+				reg.Term(chain[sc.subj()]), reg.Term(sc.New), w.gspecTerm(sc), sc.Budget, o.verdict, o.ret, emit.List(cs), o.headID, o.storeAfter)
 			var newH uint64
 			if sc.New != nil {
 				newH = sc.New.H
 			}
 			wr.Add(term, map[string]any{"class": sc.Class, "kind": sc.Kind, "store_head": sc.S, "subj": sc.subj(), "new_height": newH, "trust_range": sc.Pol.Range,
 				"modular": []uint64{sc.Pol.A, sc.Pol.B, sc.Pol.C, sc.Pol.M, sc.Pol.K}, "adj_soft": sc.Pol.AdjSoft, "budget": sc.Budget,
-				"overrides": len(sc.Over), "verdict": o.verdict, "requests": len(o.calls), "head_after": o.headID}, sc.Class, len(o.calls) > 0)
+				"overrides": len(sc.Over), "head_request_path": sc.Head, "answer": o.ret, "store_head_after": o.storeAfter, "verdict": o.verdict, "requests": len(o.calls), "head_after": o.headID}, sc.Class, len(o.calls) > 0)
 			wr.Count("verdict", strings.NewReplacer("(", "", ")", "").Replace(o.verdict))
 			wr.Count("kind", sc.Kind)
+			if sc.Head {
+				wr.Count("path", "head request (networkHead, soft answer)")
+				switch {
+				case sc.New != nil && o.headID == reg.ID(sc.New.Hash()):
+					wr.Count("head_path_outcome", "candidate became the head")
+				case o.headID == sc.subj():
+					wr.Count("head_path_outcome", "head unchanged")
+				default:
+					wr.Count("head_path_outcome", "an intermediate became the head")
+				}
+			} else {
+				wr.Count("path", "subscriber verifier")
+			}
 			wr.Count("requests", bucket(len(o.calls)))
 			wr.Count("distance", bucket(int(newH)-int(sc.subj())))
 			if sc.Pre > sc.S {
@@ -402,6 +475,23 @@ func TestC15(t *testing.T) {
 			return &vhdr.Header{Chain: "a", H: h, T: chain[h].T, Prev: prev, Nonce: nonce}
 		}
 
+		// the same scenario with the candidate arriving as the soft-failing answer of Syncer.Head()'s head request
+		headPath := func(sc *scen) {
+			h := *sc
+			h.Head = true
+			h.Class += "/head"
+			emitCase(&h, w.run(&h))
+		}
+		// fault variants take the two delivery paths in turn
+		alt := 0
+		alternate := func(f *scen) {
+			alt++
+			if alt%2 == 0 {
+				f.Head = true
+				f.Class += "/head"
+			}
+			emitCase(f, w.run(f))
+		}
 		// base scenario + its faults
 		explore := func(S0, pre, D uint64, pol polSpec, kind string, faultBudget, malformed int) {
 			S := S0
@@ -431,6 +521,7 @@ func TestC15(t *testing.T) {
 			sc.Class = fmt.Sprintf("D%d/%s/%s", D, pdesc, kind)
 			o := w.run(sc)
 			emitCase(sc, o)
+			headPath(sc)
 			L := len(o.calls)
 			// getter failing from request k on
 			ks := map[int]bool{}
@@ -454,7 +545,7 @@ func TestC15(t *testing.T) {
 				f.Budget = k
 				f.Kind = kind + "+getterfail"
 				f.Class = fmt.Sprintf("%s/fail@%d", sc.Class, k)
-				emitCase(&f, w.run(&f))
+				alternate(&f)
 			}
 			// malformed stream: replace the answer to one of the requests of the base run
 			for m := 0; m < malformed && L > 0; m++ {
@@ -504,7 +595,7 @@ func TestC15(t *testing.T) {
 				}
 				f.Kind = kind + "+malformed:" + mk
 				f.Class = fmt.Sprintf("%s/%s@%d", sc.Class, mk, j)
-				emitCase(&f, w.run(&f))
+				alternate(&f)
 			}
 		}
 
@@ -560,7 +651,7 @@ func TestC15(t *testing.T) {
 			}
 		}
 		// random distances, non-monotone (modular) trust predicates
-		extra := 150
+		extra := 110
 		if thorough {
 			extra = 1500
 		}
@@ -601,6 +692,7 @@ func TestC15(t *testing.T) {
 					sc.Over[at] = resp{h: chain[cur]}
 				}
 				emitCase(sc, w.run(sc))
+				headPath(sc)
 			}
 		}
 		// candidates that fail the direct verification hard, or are accepted directly: no getter use at all
@@ -631,6 +723,7 @@ func TestC15(t *testing.T) {
 				sc.Pol.AdjSoft = true
 			}
 			emitCase(sc, w.run(sc))
+			headPath(sc)
 		}
 	})
 	vhdr.SetPolicy(nil)
